@@ -76,7 +76,7 @@ func (w *Worker) solverFixture(f sField, builder, slot int, restored bool) (*sFi
 	if fx, ok := sfxCache[k]; ok {
 		return fx, nil
 	}
-	feat := GenFeat{Commit: !f.Small, Lookup: !f.Small, Range: !f.Small, Hint: true, Wide: true, Bits: true, MaxOps: 10, MinOps: 2}
+	feat := GenFeat{Commit: !f.Small, Lookup: !f.Small, Range: !f.Small, Hint: true, Wide: true, Bits: true, ScaledBool: true, MaxOps: 10, MinOps: 2}
 	ft := simrt.NewTape(simrt.Mix(w.Seed^0xc06, uint64(slot)*7+uint64(builder)))
 	p, in := GenProg(ft, f.Q, feat)
 	fx := &sFixture{Field: f, Builder: builder, Prog: p, seq: map[int]*callResult{}, Restored: restored}
